@@ -44,6 +44,7 @@ type Result struct {
 	Trouble string
 	Info    map[string]any
 	KnownHits map[string]int
+	NoMin     bool
 }
 
 const deadlockText = "deadlock: main bubble goroutine has exited"
@@ -140,5 +141,6 @@ func RunOne(t *testing.T, w World, prop, tier string, tape *Tape, ix uint64) *Re
 	res.Tape = tape.Rec
 	res.Info = k.Info
 	res.KnownHits = k.KnownHits
+	res.NoMin = k.NoMinimise
 	return res
 }
